@@ -16,6 +16,7 @@ def check(run):
         if "C17-count" not in run.rules:
             run.rule("C17-count", "report.cells / concrete_cells = product over every dimension of the number of (concrete) groups, multi-methods only", floor=4)
         crules.cellcount_rules(run, "C17-count", ast)
+        crules.group_concrete_rules(run, "C17-count", ast)
     # the cell verdict belongs to C01
     run.violations = [v for v in run.violations if v["rule"] != "C17-cells"]
     del run.rules["C17-cells"]
